@@ -241,11 +241,12 @@ def _r2(ctx):
   """C08.R2 = C11.R4 evaluated and reported under C08."""
   before = len(ctx.violations)
   rules_before = set(ctx.rules)
-  c11.r4_exception_discipline(ctx)
+  c11.r4_exception_discipline(ctx, resolve_only=True)
   # re-label
   if 'C11.R4' in ctx.rules:
     rs = ctx.rules.pop('C11.R4')
-    rs.title = '"*" rules cannot raise at resolution; unsupported specific rules are refused up front'
+    rs.floor = 1
+    rs.title = '"*" rules cannot raise at resolution (unsupported cells are skipped silently)'
     ctx.rules['C08.R2'] = rs
   for v in ctx.violations[before:]:
     if v.rule == 'C11.R4':
